@@ -37,6 +37,14 @@ fn do_swap() {
     }
 }
 
+struct YieldHook;
+impl log4rs::verif_hooks::Yield for YieldHook {
+    fn at(&self, kind: u8) {
+        on_yield(kind)
+    }
+}
+static YIELD_HOOK: YieldHook = YieldHook;
+
 fn on_yield(_kind: u8) {
     unsafe {
         let k = YIELDS;
@@ -79,13 +87,11 @@ fn handler(_e: &anyhow::Error) {
 fn mk_config(names: (&'static str, &'static str), ids: (u8, u8), root_level: LevelFilter, a_level: LevelFilter, additive: bool, fails: bool, order: bool) -> Config {
     let a0 = Appender::builder().build(names.0, Box::new(Cap { id: ids.0, fails: false }));
     let a1 = Appender::builder().build(names.1, Box::new(Cap { id: ids.1, fails }));
-    let b = Config::builder();
-    let b = if order { b.appender(a1).appender(a0) } else { b.appender(a0).appender(a1) };
-    let b = b.logger(LoggerCfg::builder().appender(names.1).additive(additive).build("a", a_level));
-    match b.build(Root::builder().appender(names.0).build(root_level)) {
-        Ok(c) => c,
-        Err(_) => panic!("valid configuration rejected"),
-    }
+    // assembled directly: ConfigBuilder::build itself does not fit the solver (DESIGN.md 9.6) and is
+    // not the subject here; the configuration is valid by construction
+    let apps = if order { vec![a1, a0] } else { vec![a0, a1] };
+    let loggers = vec![LoggerCfg::builder().appender(names.1).additive(additive).build("a", a_level)];
+    Config::verif_from_parts(apps, Root::builder().appender(names.0).build(root_level), loggers)
 }
 
 /// expected per-appender deliveries for a record (target under "a" or not, level) under a config
@@ -127,7 +133,7 @@ pub fn body(additive0: bool, additive1: bool, target: &'static str, under_a: boo
     unsafe {
         HANDLE = Some(logger.verif_handle());
         NEXT = Some(c1);
-        log4rs::verif_hooks::YIELD = Some(on_yield);
+        log4rs::verif_hooks::YIELD = Some(&YIELD_HOOK);
         if reentrant {
             REENTRANT_AT = sym::below(2);
             SWAP_AT = 255;
